@@ -118,42 +118,11 @@ pub fn one_item_exactly_once() {
     vassert!(z.is_none(), "C13.no-duplicate-one: the output is not delivered a second time");
 }
 
-/// (d) a burst: four items are already waiting in the first stage; four next() calls deliver all of
-/// them, in order, none lost (thorough tier).
-#[cfg_attr(kani, kani::proof)]
-#[cfg_attr(kani, kani::unwind(7))]
-pub fn burst_of_four_ready_items_all_delivered() {
-    unsafe { tokio::macros::CHOICE = Some(choice); }
-    let a = sym::any_u8();
-    let c = ComposedProcessors { first: Fifo::new4([Some(a), Some(1), Some(2), Some(3)], 0), second: Fifo::new4([None, None, None, None], 0) };
-    macro_rules! run { ($f:expr) => {{
-        let mut f = std::pin::pin!($f);
-        let mut out = None;
-        if let Poll::Ready(r) = poll_once(f.as_mut()) { out = Some(r); }
-        if out.is_none() { if let Poll::Ready(r) = poll_once(f.as_mut()) { out = Some(r); } }
-        if out.is_none() { if let Poll::Ready(r) = poll_once(f.as_mut()) { out = Some(r); } }
-        if out.is_none() { if let Poll::Ready(r) = poll_once(f.as_mut()) { out = Some(r); } }
-        if out.is_none() { if let Poll::Ready(r) = poll_once(f.as_mut()) { out = Some(r); } }
-        if out.is_none() { if let Poll::Ready(r) = poll_once(f.as_mut()) { out = Some(r); } }
-        out
-    }}; }
-    // (every forwarded item costs one yield_now: up to 4 pending polls before the first output)
-    let w = run!(c.next());
-    let x = run!(c.next());
-    let y = run!(c.next());
-    let z = run!(c.next());
-    vassert!(w == Some(Ok(a)) && x == Some(Ok(1)), "C13.burst-first-two: the first two items of a burst come out in order");
-    vassert!(y == Some(Ok(2)) && z == Some(Ok(3)), "C13.burst-all: every item of a burst waiting in the first stage is delivered, none is dropped");
-    vassert!(c.first.len() + c.second.len() == 0, "C13.burst-drained: nothing is left behind or duplicated");
-    std::mem::forget(c);
-}
-
 pub fn dispatch(name: &str) -> bool {
     match name {
         "c13::cancelled_next_loses_no_intermediate_item" => cancelled_next_loses_no_intermediate_item(),
         "c13::two_items_exactly_once_in_order" => two_items_exactly_once_in_order(),
         "c13::one_item_exactly_once" => one_item_exactly_once(),
-        "c13::burst_of_four_ready_items_all_delivered" => burst_of_four_ready_items_all_delivered(),
         _ => return false,
     }
     true
